@@ -50,6 +50,8 @@ def rand_leaf(rs, v, kinds):
     if kind == "cat":
         k = int(rs.randint(2, 5))
         cats = sorted(rs.choice(6, size=k, replace=False).tolist())
+        if rs.rand() < 0.3:
+            cats = [int(c) for c in rs.permutation(cats)]          # category labels need not be stored in ascending order
         return Categorical(v, cats, dyadic_weights(rs, k, 4))
     if kind == "gauss":
         return Gaussian(v, float(rs.randint(-8, 9) / 4.0), float(rs.randint(1, 9) / 4.0))
